@@ -18,7 +18,12 @@ FLAGS = ["--min-complexity", "1", "--clone-threshold", "0.8", "--min-severity", 
 def build_race():
     env = C.go_env()
     rc, out = C.sh(["go", "build", "-race", "-o", os.path.join(C.BUILD, "pyscn_race"), "./cmd/pyscn"], cwd=C.REPO, env=env)
-    return rc == 0, out
+    if rc != 0:
+        return False, out
+    # the overlay harness under the race detector (for the cancellation scenario: the real MCP handlers with a request context that ends mid-run)
+    rc, out2 = C.sh(["go", "build", "-race", "-tags", "verif", "-overlay", os.path.join(C.BUILD, "overlay.json"), "-o", os.path.join(C.BUILD, "verifharness_race"),
+                     "./cmd/verifharness"], cwd=C.REPO, env=env)
+    return rc == 0, out + out2
 
 
 def gen_project(rng, root):
@@ -39,6 +44,14 @@ def gen_project(rng, root):
     os.makedirs(os.path.join(root, "pkg"))
     files["pkg/__init__.py"] = ""
     files["pkg/inner.py"] = "from mod0 import os\n" + gen_module(rng, 9)
+    # a module WITHOUT any explicit import (and one with a star import only) that mentions names an earlier-sorted module imports explicitly:
+    # whatever table of imported names an analysis builds for one file must not survive into the next file
+    files["shared_names.py"] = "class Repository:\n    def get(self):\n        return 1\n\nclass Ledger:\n    def put(self, v):\n        self.v = v\n\ndef open_ledger():\n    return Ledger()\n"
+    files["a_billing.py"] = ("from shared_names import Repository, Ledger, open_ledger\nimport shared_names as sn\n\nclass Invoice:\n    def total(self):\n        self.repo = Repository()\n"
+                             "        return Ledger().put(open_ledger())\n")
+    files["b_handlers.py"] = ("class Handler:\n    def handle(self, x):\n        self.repo = Repository()\n        self.led = Ledger()\n        return open_ledger()\n\n"
+                              "class Other(Repository):\n    def m(self):\n        return sn.Ledger()\n")
+    files["c_star.py"] = "from shared_names import *\n\nclass StarUser:\n    def run(self):\n        self.r = Repository()\n        return Ledger()\n"
     for fn, src in files.items():
         with open(os.path.join(root, fn), "w") as f:
             f.write(src)
@@ -101,9 +114,13 @@ def run(tier, seed, replay=None):
             # ---- per-file results vs subsets and orders ------------------------------------------------------------------------------
             names = sorted(files)
             ref = per_file(full, lambda p: True)
-            for _ in range(3 if tier == "quick" else 6):
-                sub = rng.sample(names, rng.randint(1, len(names)))
-                rng.shuffle(sub)
+            directed = [["b_handlers.py"], ["c_star.py"], ["b_handlers.py", "a_billing.py"], ["a_billing.py", "c_star.py", "b_handlers.py"], list(reversed(names))]
+            for si in range(len(directed) + (3 if tier == "quick" else 6)):
+                if si < len(directed):
+                    sub = directed[si]
+                else:
+                    sub = rng.sample(names, rng.randint(1, len(names)))
+                    rng.shuffle(sub)
                 rc, d, err = C.pyscn_json([os.path.join("proj", f) for f in sub], root, extra=FLAGS + ["--select", "complexity,deadcode,cbo,lcom"])
                 hist["subset_runs"] += 1
                 if d is None:
@@ -136,6 +153,45 @@ def run(tier, seed, replay=None):
                         res.violation("C20: the race detector reports a data race during `analyze` (GOMAXPROCS=%s): %s" % (env["GOMAXPROCS"], loc),
                                       dict(info, signature={"kind": "data-race", "where": loc[:1]}, report=first))
                         break
+            # ---- an interleaving of its own: the request context ends while the analyses run (MCP client gives up / deadline) ---------------------------
+            if ok_race and pi < (1 if tier == "quick" else 6):
+                big = os.path.join(root, "bigproj")
+                shutil.copytree(proj, big)
+                for k in range(12):
+                    for fn, src in files.items():
+                        if fn.startswith("mod") and fn.endswith(".py"):
+                            with open(os.path.join(big, "x%d_%s" % (k, fn)), "w") as f:
+                                f.write(src)
+                req = "mcp_cancel " + json.dumps({"Tool": "analyze_code", "Args": {"path": big, "output_mode": "full"}, "Cwd": root, "AfterMs": [1, 20, 100, 300, 700]})
+                import subprocess
+                env = dict(C.harness_env(), GORACE="halt_on_error=0")
+                p = subprocess.run([os.path.join(C.BUILD, "verifharness_race")], input=req + "\n", capture_output=True, text=True, env=env, timeout=1800)
+                hist["cancel_runs"] = hist.get("cancel_runs", 0) + 5
+                hist["race_runs"] += 5
+                if "DATA RACE" in p.stderr:
+                    first = p.stderr[p.stderr.index("DATA RACE"):][:1800]
+                    loc = [ln.strip() for ln in first.split("\n") if ".go:" in ln][:3]
+                    res.violation("C20: the race detector reports a data race when the request context of MCP analyze_code ends while the analyses run "
+                                  "(deadlines 1/20/100/300/700 ms on a %d-file project): %s" % (len(os.listdir(big)), loc),
+                                  dict(info, signature={"kind": "data-race", "scenario": "context-ends-mid-run", "where": loc[:1]}, report=first))
+                elif p.returncode != 0 or not p.stdout.strip():
+                    res.violation("C20: the MCP handler crashes when its request context ends mid-run: %s" % p.stderr[-400:],
+                                  dict(info, signature={"kind": "crash", "scenario": "context-ends-mid-run"}))
+                else:
+                    try:
+                        runs = json.loads(p.stdout.strip().split("\n")[-1])["runs"]
+                    except Exception:
+                        runs = []
+                    left = [r["still_running_at_return"] for r in runs]
+                    hist["goroutines_still_running_at_return"] = left
+                    # On the unchanged tree the use case waits for every analysis goroutine before it builds the response (0 or 1 goroutine is still winding
+                    # down when the handler returns). This observation only DECIDES when the pinned structure of Execute (C20_facts: goroutine starts, wg.Wait,
+                    # result reads) no longer matches the source: then goroutines that outlive the call are the concrete schedule on which the response is
+                    # built from task records that are still being written.
+                    if left and min(left) >= 3 and not ps.ok:
+                        res.violation("C20: MCP analyze_code returns while %s analysis goroutines of the request are still running (request context ended after 1/20/100/300/700 ms): "
+                                      "the response and the error list are built from task records those goroutines still write (unsynchronised: a data race on task.Result/task.Error)" % left,
+                                      dict(info, signature={"kind": "data-race", "scenario": "context-ends-mid-run", "where": ["goroutines outlive Execute"]}, runs=runs, broken=ps.broken))
             # ---- MCP tools vs the command line -------------------------------------------------------------------------------------------
             absproj = proj
             # "the same path and options": the options the MCP server works with are read from the echo of its own full response
@@ -246,7 +302,8 @@ def run(tier, seed, replay=None):
         "distinct_nontrivial": len(nontrivial),
         "rule": "generated projects (4-8 modules in two directories with functions around the complexity thresholds, dead code, coupled classes, cohesion groups, copied functions, import "
                 "cycles); per project: the combined run vs each of the six analyses alone (sections compared exactly), random file subsets in random order vs the full run (per-file results), "
-                "the race-detector build of the real CLI with GOMAXPROCS 8/16/2, six MCP tools called in process vs the command line with the same path and options",
+                "the race-detector build of the real CLI with GOMAXPROCS 8/16/2, the race-detector build of the harness calling MCP analyze_code with a request context that ends after 1/20/100/300/700 ms, "
+                "directed subsets (a module without imports alone / after / before the module that imports the names it mentions), six MCP tools called in process vs the command line with the same path and options",
         "samples": [{"select": "deps", "compared_section": "system"}, {"subset": ["mod2.py", "mod0.py"], "compared": ["complexity", "dead_code", "cbo", "lcom"]}, {"mcp_tool": "find_dead_code", "vs": "analyze --json dead_code findings"}],
         "traces_validated_against_impl": hist["select_runs"] + hist["subset_runs"],
         "distribution": hist,
